@@ -21,13 +21,21 @@ import itertools
 import math
 from fractions import Fraction
 
-from .common import add_failure, bump, new_outcome, rat, unrat
+import json
+
+from .common import LEAN, SRC, VERIF, add_failure, bump, new_outcome, rat, unrat
 
 PROP = "C18"
-PROPS_FILES = ["CogentModel/Props/C18.lean"]
-LEAN_TARGETS = ["CogentModel.Props.C18"]
+PROPS_FILES = ["CogentModel/Props/C18.lean", "CogentModel/Props/C18G.lean"]
+LEAN_TARGETS = ["CogentModel.Props.C18", "CogentModel.Props.C18G"]
 DRIVER = "drv_c18"
+GEN_FILE_GAPS = LEAN / "CogentModel" / "Gen" / "C18Gaps.lean"
 TRUSTED = [
+    "translator/c18_gaps2lean.py (ast only): _GapOffset.__init__/__getitem__, _gap_difference, _merged_gaps, "
+    "_subset_gaps_to_align_coords, _combined_refseq_gaps, _gaps_for_injection of app/align.py -> Gen/C18Gaps.lean on every run; "
+    "Props/C18G.lean proves every generated definition equal to the hand model Model/GapMerge.lean for all arguments (dicts as "
+    "association lists with unique keys; rules R1-R6 of the translator's docstring are the trusted reading of dict iteration, "
+    "update, the _ordered cache and set order)",
     "hand-written model lean/CogentModel/Model/PairHMM.lean of the numba Viterbi kernel + traceback (tied by the "
     "exact-rational shadow: optimum/path score recomputed from the real hmm's own float64 T and emission arrays)",
     "hand-written model lean/CogentModel/Model/GapMerge.lean of app/align.py gap-dict helpers (tied by exact "
@@ -51,6 +59,26 @@ ASSUMPTIONS = [
 
 TOL = 1e-9
 DNA = "ACGT"
+
+
+# --------------------------------------------------------------------------
+# translator step
+# --------------------------------------------------------------------------
+def generate(ctx):
+    import sys
+
+    sys.path.insert(0, str(VERIF))
+    from translator import c18_gaps2lean
+
+    try:
+        lean, info, problems = c18_gaps2lean.translate(SRC / "app" / "align.py")
+    except (c18_gaps2lean.TranslationError, SyntaxError, OSError) as e:
+        return [f"c18_gaps2lean: {e}"]
+    ctx.notes.append(f"c18_gaps2lean: {json.dumps(info.get('seen', {}))[:600]}")
+    if lean is not None and c18_gaps2lean.write_if_changed(GEN_FILE_GAPS, lean):
+        ctx.notes.append("Gen/C18Gaps.lean was rewritten (source of the gap helpers differs from the last generated text)")
+    return [f"c18_gaps2lean: {p}" for p in problems]
+
 PROT = "ACDEFGHIKLMNPQRSTVWY"
 
 
